@@ -15,6 +15,7 @@ search (oracle): per-thread outcome == the same call alone; no internal error; n
 from __future__ import annotations
 
 import json
+import threading
 
 from .. import common
 from ..sexp import Sym, dumps, loads
@@ -33,7 +34,13 @@ META = dict(
          "memo without recursion_lock => KeyError) and replayed on the real code = open known finding "
          "lr_mode_shared_memo. In LR mode only these witnesses plus runs whose threads all parse the SAME "
          "input and whose reset_cache() calls all precede the first memo access are checked (oracle only, "
-         "no Lean theorem: partial). The model is tied to /repo by validating every logged event trace of "
+         "no Lean theorem: partial). Outside the model's hypothesis (an element's behaviour is a function of its cache "
+         "key): parse actions whose output depends on the calling thread; for these an oracle-only leg suspends a "
+         "thread inside each of its parse actions while the others run, and a second open known finding "
+         "(packrat_equal_input_shared_entries: a call is served another call's complete cached parse of a "
+         "value-equal string) is replayed. 'Nothing deadlocks' is additionally checked for lazily consumed "
+         "scan_string generators whose consumer waits for another thread's parse between matches (oracle only). "
+         "The model is tied to /repo by validating every logged event trace of "
          "the wrapped real locks/cache/memo against the Lean event semantics and by predicting the exact "
          "event trace and results of the real code under model-enumerated forced schedules.",
     note="Trusted: Lean kernel; axioms propext/Classical.choice/Quot.sound; GIL atomicity of a single dict "
@@ -194,7 +201,26 @@ class Case:
         self.rows = None
         self.learn_ok = True
 
+    @classmethod
+    def custom(cls, pp, mode, desc, fns):
+        """a scenario with hand-built thread functions (no call tables: oracle only)"""
+        c = cls.__new__(cls)
+        c.pp, c.mode, c._desc, c.fns = pp, tuple(mode), dict(desc), list(fns)
+        c.gname, c.entry, c.inputs, c.lr = desc.get("grammar"), desc.get("scenario"), desc.get("inputs", []), False
+        c.I = S.Interner()
+        c.serial, c.rows, c.learn_ok = None, None, False
+        return c
+
+    def learn_serial(self):
+        self.serial = []
+        for fn in self.fns:
+            with S.Session(self.pp, self.mode, self.I) as ses:
+                self.serial.append(ses.run_serial(fn))
+        return self
+
     def desc(self):
+        if getattr(self, "_desc", None) is not None:
+            return dict(self._desc, mode=list(self.mode))
         return {"mode": list(self.mode), "grammar": self.gname, "entry": self.entry, "inputs": self.inputs,
                 "lr": self.lr}
 
@@ -573,6 +599,200 @@ def leg_lr_same_input(ctx, pp):
     ctx.count_cases("oracle-lr-same-input", len(recs), outcomes=stats)
 
 
+# ------------------------------------------------------------------------------------------------
+# scenarios with context-dependent parse actions and with lazily consumed scan_string generators
+# ------------------------------------------------------------------------------------------------
+SIG_EQ = "packrat_equal_input_shared_entries"
+_tl = threading.local()
+
+
+def _tag(t):
+    return f"{getattr(_tl, 'name', '?')}:{t[0]}"
+
+
+def _pause(t):
+    ses = S.current()
+    if ses is not None:
+        ses.yield_point("act")
+
+
+def tagged_grammars(pp):
+    item = lambda: pp.Word(pp.alphas).add_parse_action(_pause, _tag)
+    num = lambda: pp.Word(pp.nums).add_parse_action(_pause, _tag)
+    return {
+        "seq3": lambda: item() + item() + item(),
+        "backtrack": lambda: (lambda a, b: (a + b + pp.Literal("!")) | (a + b + item()))(item(), item()),
+        "groups": lambda: pp.Group(item() + pp.Opt(num()))[1, ...],
+    }
+
+
+TAGGED_INPUTS = {"seq3": ["alpha", "beta", "gamma"], "backtrack": ["alpha", "beta", "gamma"],
+                 "groups": ["a", "1", "b", "c", "2"]}
+
+
+def tagged_case(pp, mode, gname, n, distinct=False):
+    """n threads parse VALUE-EQUAL (but distinct) strings with a shared grammar whose actions tag every token with
+    the calling thread's name (thread-local context): run alone, call t returns only T<t>:... tokens"""
+    expr = tagged_grammars(pp)[gname]()
+    words = TAGGED_INPUTS[gname]
+    inputs = [" ".join(words if not (distinct and t == n - 1) else list(reversed(words))) for t in range(n)]
+
+    def mk(t, s):
+        def fn():
+            _tl.name = f"T{t}"
+            return outcome_of(pp, lambda: "res " + S.canon_results(expr.parse_string(s)))
+        return fn
+
+    desc = {"scenario": "tagged", "grammar": gname, "inputs": inputs, "n": n, "distinct": distinct}
+    return Case.custom(pp, mode, desc, [mk(t, s) for t, s in enumerate(inputs)]).learn_serial()
+
+
+PIPE_TEXT = "junk a=1 ; bb=22 ;; ccc=333 trailing"
+
+
+def pipeline_case(pp, mode, n_workers):
+    """thread 0 consumes record.scan_string(TEXT) lazily and, after match i (i < n_workers), waits for worker
+    thread i+1 (which parses that record with parse_string on shared sub-expressions) before asking for the next
+    match; run alone every call terminates at once"""
+    integer = pp.Word(pp.nums).add_parse_action(lambda t: int(t[0]))
+    name = pp.Word(pp.alphas)
+    record = pp.Group(name("key") + pp.Suppress("=") + integer("value"))
+    detail = name("key") + pp.Suppress("=") + integer("value")
+    pieces = ["a=1", "bb=22", "ccc=333"][:n_workers]
+
+    def consumer():
+        out = []
+        i = 0
+        gen = record.scan_string(PIPE_TEXT)
+        try:
+            for toks, st, en in gen:
+                out.append((S.canon_results(toks), st, en))
+                ses = S.current()
+                if ses is not None and i < n_workers:
+                    ses.wait_for([i + 1])
+                i += 1
+        finally:
+            gen.close()
+        return "scan " + repr(out)
+
+    def worker(piece):
+        return lambda: outcome_of(pp, lambda: "res " + S.canon_results(detail.parse_string(piece, parse_all=True)))
+
+    desc = {"scenario": "pipeline", "grammar": "record", "inputs": [PIPE_TEXT] + pieces, "n_workers": n_workers}
+    return Case.custom(pp, mode, desc, [consumer] + [worker(p) for p in pieces]).learn_serial()
+
+
+def build_scenario(pp, case):
+    if case["scenario"] == "tagged":
+        return tagged_case(pp, case["mode"], case["grammar"], case["n"], case.get("distinct", False))
+    if case["scenario"] == "pipeline":
+        return pipeline_case(pp, case["mode"], case["n_workers"])
+    raise ValueError(case["scenario"])
+
+
+def directed_chooser(first, k, kind):
+    """thread `first` runs alone until it is parked for the k-th time at a `kind` yield point (inside a parse
+    action / between two matches); then every other thread runs as far as it can (lowest id first); then the
+    rest.  On code that holds packrat_cache_lock across a call the others simply cannot run meanwhile."""
+    st = {"phase": 1, "cnt": 0}
+
+    def choose(en, ses):
+        if st["phase"] == 1:
+            w = ses.workers[first]
+            if w.pending is not None and w.pending[0] == kind:
+                st["cnt"] += 1
+            if st["cnt"] >= k or first not in en:
+                st["phase"] = 2
+            else:
+                return first
+        if st["phase"] == 2:
+            others = [t for t in en if t != first]
+            if others:
+                return others[0]
+            st["phase"] = 3
+        return en[0]
+
+    return choose
+
+
+def count_yields(c, t, kind):
+    """how often thread t parks at `kind` when it runs alone under the scheduler"""
+    n = [0]
+
+    def ch(en, ses):
+        w = ses.workers[0]
+        if w.pending is not None and w.pending[0] == kind:
+            n[0] += 1
+        return en[0]
+
+    with S.Session(c.pp, c.mode, c.I, gran="region") as ses:
+        ses.run_controlled([c.fns[t]], chooser=ch)
+    return n[0]
+
+
+def leg_tagged(ctx, pp):
+    """context-dependent parse actions + equal inputs: 'each call returns exactly what it returns alone' is
+    observable under packrat.  Schedules: thread A suspended inside its k-th parse action while the others run
+    as far as the code lets them (all A, all k).  Kept OUT of the region of the known finding SIG_EQ (a call
+    whose reset_cache() and parse are separated by another thread's COMPLETE parse of an equal string)."""
+    stats = {}
+    n_cases = 0
+    # corpus: the registered witness of SIG_EQ
+    c = tagged_case(pp, ("packrat", 128), "seq3", 2)
+    st = {"n": 0}
+
+    def witness_order(en, ses):  # T1 reset_cache; then T0 everything (reset + whole parse); then T1
+        st["n"] += 1
+        if st["n"] == 1:
+            return 1
+        return 0 if 0 in en else en[0]
+
+    ses, outs, status = c.forced("region", chooser=witness_order)
+    if status == "ok" and outs != c.serial:
+        ctx.fail_input("packrat: a call on an equal input string is served another call's cached tokens",
+                       dict(c.desc(), gran="region", sched=list(ses.sched_done)), c.serial, [str(o) for o in outs],
+                       theorem="(outside the model's hypothesis: element behaviour must be a function of its key)",
+                       signature=SIG_EQ)
+    modes = [("packrat", 128), ("packrat", None), ("packrat", 2), ("packrat", 0), ("off",)]
+    for gname in tagged_grammars(pp):
+        for mode in modes:
+            for n, distinct in ((2, False), (3, False), (3, True)):
+                c = tagged_case(pp, mode, gname, n, distinct)
+                for first in range(n):
+                    ky = count_yields(c, first, "act")
+                    for k in range(1, ky + 1):
+                        if len(ctx.fail_inputs) >= 3:
+                            break
+                        ses, outs, status = c.forced("region", chooser=directed_chooser(first, k, "act"))
+                        c.check_outcomes(ctx, outs, status, {"gran": "region", "sched": list(ses.sched_done),
+                                                             "suspended": [first, k]}, stats)
+                        n_cases += 1
+    ctx.count_cases("oracle-tagged-actions", n_cases, outcomes=stats,
+                    distinct_keys=[f"{g}|{m}" for g in tagged_grammars(pp) for m in modes],
+                    samples=[{"scenario": "tagged", "grammar": "seq3", "n": 2, "suspended": [0, 1]}])
+
+
+def leg_pipeline(ctx, pp):
+    """lazily consumed scan_string generator whose consumer waits for another thread's parse between matches:
+    nothing may deadlock (a suspended generator must not keep a lock another call needs)"""
+    rng = ctx.subrng("pipeline")
+    stats = {}
+    n_cases = 0
+    for mode in (("off",), ("packrat", 128), ("packrat", 1), ("packrat", None)):
+        for nw in (1, 2, 3):
+            c = pipeline_case(pp, mode, nw)
+            jobs = [directed_chooser(0, k, "wait") for k in range(1, nw + 1)]
+            jobs += [uniform_chooser(rng) for _ in range(ctx.budget(3, 12))]
+            for ch in jobs:
+                if len(ctx.fail_inputs) >= 3:
+                    break
+                ses, outs, status = c.forced("region", chooser=ch)
+                c.check_outcomes(ctx, outs, status, {"gran": "region", "sched": list(ses.sched_done)}, stats)
+                n_cases += 1
+    ctx.count_cases("oracle-scan-pipeline", n_cases, outcomes=stats,
+                    samples=[{"scenario": "pipeline", "n_workers": 2, "text": PIPE_TEXT}])
+
+
 def run(ctx):
     pp = common.import_pyparsing()
     ctx.proof_leg("PPProofs.Props.C15", THEOREMS)
@@ -588,12 +808,23 @@ def run(ctx):
         "scan_string/search_string cases included; fine = line/opcode pre-emption inside _parseCache, "
         "reset_cache, Forward.parseImpl and the cache/memo methods; stress = free-running, switchinterval 1e-6")
     # corpus first
-    leg_lr_witness(ctx, pp)
-    cases = leg_forced(ctx, pp, case_list(ctx, pp))
-    leg_lr_same_input(ctx, pp)
+    import time as _t
+    tm = ctx.notes.setdefault("leg_seconds", {})
+
+    def timed(name, f, *a):
+        t0 = _t.time()
+        r = f(*a)
+        tm[name] = round(tm.get(name, 0) + _t.time() - t0, 1)
+        return r
+
+    timed("lr_witness", leg_lr_witness, ctx, pp)
+    timed("tagged", leg_tagged, ctx, pp)
+    timed("pipeline", leg_pipeline, ctx, pp)
+    cases = timed("forced", leg_forced, ctx, pp, case_list(ctx, pp))
+    timed("lr_same_input", leg_lr_same_input, ctx, pp)
     small = [c for c in cases if c.mode in (("packrat", 0), ("packrat", 1), ("packrat", 2), ("off",))]
-    leg_fine(ctx, pp, small[:: max(1, len(small) // ctx.budget(36, 120))], ctx.budget(10, 30), "base")
-    leg_stress(ctx, pp, cases[:: max(1, len(cases) // ctx.budget(16, 80))], ctx.budget(2, 6), "base")
+    timed("fine", leg_fine, ctx, pp, small[:: max(1, len(small) // ctx.budget(30, 120))], ctx.budget(8, 30), "base")
+    timed("stress", leg_stress, ctx, pp, cases[:: max(1, len(cases) // ctx.budget(16, 80))], ctx.budget(2, 6), "base")
     # parse_all=True builds `Empty() + StringEnd()` afresh per call (fresh cache keys), so it is outside the
     # table-driven model runs: oracle only (region schedules + stress)
     rng = ctx.subrng("parse-all")
@@ -622,7 +853,10 @@ def replay(data):
         ctx = common.Ctx("C15", "quick", data.get("seed", 0))
         run(ctx)
         return bool(ctx.broken or ctx.fail_inputs)
-    c = Case(pp, case["mode"], case["grammar"], case["entry"], case["inputs"], lr=case.get("lr", False)).learn()
+    if case.get("scenario") in ("tagged", "pipeline"):
+        c = build_scenario(pp, case)
+    else:
+        c = Case(pp, case["mode"], case["grammar"], case["entry"], case["inputs"], lr=case.get("lr", False)).learn()
     gran = case.get("gran", "region")
     if gran == "free":
         for _ in range(30):
